@@ -357,7 +357,7 @@ func runC16(c *Ctx) {
 				if canReach(st, b, nil) {
 					reached = true
 				}
-				if canReach(b, st, nil) || canReachCut(nb[0], b, map[ssa.Instruction]bool{st: true}, nilSideCut(isNewBody, true)) {
+				if canReach(b, st, nil) || canReachCutA7(nb[0], b, map[ssa.Instruction]bool{st: true}, nilSideCut(isNewBody, true)) {
 					before = false
 				}
 			}
